@@ -327,6 +327,33 @@ def run_driver(lines):
     return ans
 
 
+# ----------------------------------------------------------------------------- escalation when the anchored code changed
+
+
+def ast_fingerprint(path):
+    """sha256 of the file's AST (insensitive to comments, blank lines and formatting); None when unreadable"""
+    import ast
+
+    try:
+        return hashlib.sha256(ast.dump(ast.parse(open(path).read())).encode()).hexdigest()
+    except Exception:
+        return None
+
+
+def anchored_files_changed(prop):
+    """Anchored files of `prop` whose AST differs from anchor_fingerprints.json (recorded at the /repo commit the checks
+    were last tuned on).  Used only to decide HOW MUCH to explore: a changed file means the sampled tie has to be
+    re-established for code nobody has soaked yet, so the run adds the random streams of further seeds."""
+    p = os.path.join(VERIF, "anchor_fingerprints.json")
+    if not os.path.exists(p):
+        return []
+    try:
+        rec = json.load(open(p))["fingerprints"].get(prop, {})
+    except Exception:
+        return []
+    return sorted(f for f, h in rec.items() if ast_fingerprint(os.path.join(REPO, f)) != h)
+
+
 # ----------------------------------------------------------------------------- known findings
 
 
@@ -517,6 +544,7 @@ def _main(mod, prop, args, seed, t0):
     # ---- 2./3. correspondence + oracle
     import anchorcov
 
+    escalation = {"anchored_files_changed": [], "extra_seeds": []}
     anchorcov.start(VERIF, REPO, prop)  # measures which anchored lines the cases execute (evidence only)
     if args.replay:
         payload = json.load(open(os.path.join(VERIF, args.replay) if not os.path.isabs(args.replay) else args.replay))
@@ -524,6 +552,17 @@ def _main(mod, prop, args, seed, t0):
     else:
         rng = Rng(seed)
         cases = list(mod.cases(tier, rng))
+        changed_files = anchored_files_changed(prop)
+        if changed_files and os.environ.get("VERIF_ESCALATE", "1") != "0":
+            # the anchored code is not the code the check was soaked on: explore the random streams of further seeds too
+            seen_c = set(canonical(c) for c in cases)
+            for extra in range(1, 1 + int(os.environ.get("VERIF_ESCALATE_SEEDS", "2"))):
+                for c in mod.cases(tier, Rng(seed + 7919 * extra)):
+                    k = canonical(c)
+                    if k not in seen_c:
+                        seen_c.add(k)
+                        cases.append(c)
+            escalation = {"anchored_files_changed": changed_files, "extra_seeds": [seed + 7919 * e for e in range(1, 1 + int(os.environ.get("VERIF_ESCALATE_SEEDS", "2")))]}
     results, t_impl, t_model = evaluate(mod, cases) if cases else ([], 0.0, 0.0)
     try:
         anchor_cov = anchorcov.stop()
@@ -677,6 +716,7 @@ def _main(mod, prop, args, seed, t0):
         "explanation": "proof: Lean theorems about the executable model (obligations/discharged); the model is tied to /repo's working tree by running both on the same cases in this run (evaluations) and the property is additionally evaluated directly on the implementation's answers (oracle)",
     }
     cov.update(anchor_cov)
+    cov["escalation"] = escalation
     if hasattr(mod, "extra_coverage"):
         try:
             cov.update(mod.extra_coverage(results))
